@@ -1037,6 +1037,27 @@ def m_int_op(name):
     return f
 
 
+def m_range_contains_const(it, args, callee, depth):
+    """(a..b).contains(&x) / (a..=b).contains(&x) on integer constants"""
+    rg, x = deref_all(it, args[0]), deref_all(it, args[1])
+    if not (isinstance(rg, tuple) and rg[0] == "adt" and "ops::range::Range" in rg[1] and isinstance(x, int) and not isinstance(x, bool)):
+        return NotImplemented
+    lo, hi = deref_all(it, rg[3][0]), deref_all(it, rg[3][1])
+    if not (isinstance(lo, int) and isinstance(hi, int)):
+        return NotImplemented
+    import re as _re7
+    c_ = callee or {}
+    m = _re7.search(r"Range(?:Inclusive)?<([iu](?:8|16|32|64|128|size))>", " ".join([c_.get("path", ""), c_.get("full", ""), ((c_.get("res") or {}).get("path", ""))]))
+    ty = m.group(1) if m else "i64"
+    bits = INT_BITS.get(ty, 64)
+
+    def sg(v):
+        v &= (1 << bits) - 1
+        return v - (1 << bits) if ty.startswith("i") and (v >> (bits - 1)) & 1 else v
+    lo, hi, x = sg(lo), sg(hi), sg(x)
+    return int(lo <= x <= hi) if rg[1].endswith("RangeInclusive") else int(lo <= x < hi)
+
+
 def m_int_bits(name):
     """leading_zeros / trailing_zeros / count_ones on integer constants (the width from the impl the call resolves to)"""
     def f(it, args, callee, depth):
@@ -1378,6 +1399,7 @@ STD_MODELS = [
     (">::wrapping_add", m_int_op("wrapping_add")),
     (">::wrapping_mul", m_int_op("wrapping_mul")),
     (">::abs_diff", m_int_op("abs_diff")),
+    ("ops::range::Range::<Idx>::contains", m_range_contains_const), ("ops::range::RangeInclusive::<Idx>::contains", m_range_contains_const),
     (">::leading_zeros", m_int_bits("leading_zeros")),
     (">::trailing_zeros", m_int_bits("trailing_zeros")),
     (">::count_ones", m_int_bits("count_ones")),
